@@ -157,6 +157,45 @@ enum Item {
     Err(String, &'static str),
 }
 
+/// Both APIs on their own parser over the same input, called in lock-step and
+/// continuing after errors; after every pair of calls the two nesting budgets
+/// (observation hook) must both be back at their initial value.
+fn lockstep_after_errors<'a, R1: Read<'a>, R2: Read<'a>>(mut pv: Parser<R1>, mut pd: Parser<R2>, calls: usize) -> Option<String> {
+    let mut errors = 0;
+    for i in 0..calls {
+        let a = pv.next_value();
+        let b = pd.next_datum().map(|o| o.map(|d| d.value().clone()));
+        let (bv, bd) = (crate::hooks::budget(&pv), crate::hooks::budget(&pd));
+        if bv != bd {
+            return Some(format!("after call #{} ({} errors so far) the value parser's nesting budget is {} but the datum parser's is {}", i + 1, errors, bv, bd));
+        }
+        match (&a, &b) {
+            (Ok(Some(x)), Ok(Some(y))) => {
+                if !same(x, y) {
+                    return Some(format!("call #{} after {} errors: next_value gives {} but next_datum gives {}", i + 1, errors, dbg_value(x), dbg_value(y)));
+                }
+            }
+            (Ok(None), Ok(None)) => return None,
+            (Err(e1), Err(e2)) => {
+                errors += 1;
+                if err_kind(e1) != err_kind(e2) || cat_name(e1) != cat_name(e2) {
+                    return Some(format!("call #{}: next_value fails with '{}' but next_datum with '{}'", i + 1, e1, e2));
+                }
+            }
+            _ => {
+                return Some(format!(
+                    "call #{} after {} errors: next_value gives {} but next_datum gives {}",
+                    i + 1,
+                    errors,
+                    match &a { Ok(Some(x)) => format!("Ok({})", dbg_value(x)), Ok(None) => "End".into(), Err(e) => format!("Err({})", e) },
+                    match &b { Ok(Some(x)) => format!("Ok({})", dbg_value(x)), Ok(None) => "End".into(), Err(e) => format!("Err({})", e) }
+                ))
+            }
+        }
+    }
+    None
+}
+
 fn values_seq<'a, R: Read<'a>>(mut p: Parser<R>, cap: usize) -> Vec<Item> {
     let mut out = Vec::new();
     for _ in 0..cap {
@@ -218,6 +257,24 @@ pub fn compare_apis(rep: &mut Report, input: &[u8], q: &Q, tag: &str, rng: &mut 
     ];
     if let Ok(s) = std::str::from_utf8(input) {
         sources.push(("str", values_seq(Parser::from_str_custom(s, o), cap), datums_seq(Parser::from_str_custom(s, o), cap)));
+    }
+    // lock-step continuation after errors (slice and stream)
+    {
+        rep.eval();
+        let calls = (input.len() + 3).min(160);
+        let r1 = lockstep_after_errors(Parser::from_slice_custom(input, o), Parser::from_slice_custom(input, o), calls);
+        let r2 = lockstep_after_errors(Parser::from_reader_custom(input, o), Parser::from_reader_custom(input, o), calls);
+        if let Some(msg) = r1.or(r2) {
+            let key: String = msg.chars().filter(|c| !c.is_ascii_digit()).take(40).collect();
+            rep.violation(
+                "lockstep-after-errors",
+                format!("C10:lockstep:{}", key.trim()),
+                format!("input {:?} with {}: {}", show(input), q.describe(), msg),
+                json!({"input_hex": hex(input), "options_index": q.index(), "generator": tag}),
+            );
+            return;
+        }
+        rep.count("lockstep:histories");
     }
     for (si, (src, vs, (ds, datums))) in sources.iter().enumerate() {
         rep.distinct(hash2(base, si as u64));
@@ -342,6 +399,27 @@ pub fn sets(ctx: &Ctx) -> Vec<CaseSet> {
                 let q = match rng.below(3) { 0 => Q::default_(), 1 => Q::elisp(), _ => Q::from_index(rng.below(N_Q)) };
                 rep.count("inputs:near-limit-nesting");
                 compare_apis(rep, text.as_bytes(), &q, "near-limit-nesting", rng);
+            }),
+        ),
+        CaseSet::new(
+            "errors-then-nesting",
+            ctx.size(300, 3_000),
+            Box::new(move |rep, rng, _| {
+                // many items that fail inside a nesting construct, then a well-formed nested item
+                let bad: &[&str] = &["'#z ", "''#z ", "(')", "(#z) ", "#(#z) ", "[#z] ", "`,#z ", "(a . #z) ", "'", "(()", ",@#z "];
+                let n = rng.range(20, 140);
+                let mut s = String::new();
+                let which = *rng.pick::<&str>(bad);
+                for _ in 0..n {
+                    s.push_str(if rng.chance(4, 5) { which } else { *rng.pick::<&str>(bad) });
+                }
+                let depth = rng.range(30, 110);
+                s.push_str(&"(".repeat(depth));
+                s.push('x');
+                s.push_str(&")".repeat(depth));
+                let q = if rng.bool() { Q::default_() } else { Q::elisp() };
+                rep.count("inputs:errors-then-nesting");
+                compare_apis(rep, s.as_bytes(), &q, "errors-then-nesting", rng);
             }),
         ),
         CaseSet::new(
